@@ -26,6 +26,10 @@ ohist  one CenterOfMassOriginModel: measure / replace the data through the `tens
        drawn orders; every measurement == oracle of the CURRENT data, every fit of exactly planar
        measured origins == that surface, every shift with integer fitted origins == roll of the
        CURRENT data.
+       Fitted origins are set per pattern, one for all, or ALL AT THE TARGET corner (identity shift);
+       shifts come in series on the same instance; every history ends with a measurement.
+bigcom the `com` judgements on LARGE datasets: sizes right below / above 2^20 .. 2^24 values, prime
+       number of scan rows (no equal split of the rows is exact), detectors 32..128 px.
 dhist  one PtychographyDatasetRaster: _set_intensities_com (explicit argument or the stored
        intensities_4d, either path, drawn masks) and preprocess() called repeatedly while
        intensities_4d / com_measured / com_fit are replaced through their setters.
